@@ -581,7 +581,8 @@ def _failures(c, backend, r):
 def _classify_exc(s, o, lvl, backend, res, item):
     name = res[1]
     if name == "TypeError":
-        # COMMON matched with the time group present and the minute group absent (own transcription of the pattern)
+        # COMMON matched with the time group present and the minute group absent (own transcription of the pattern BEFORE the repair that made
+        # the minute group mandatory; finding common-minute-absent-typeerror is `fixed`, so a TypeError here is reported as a VIOLATION under that id)
         if re.match(r"(?:\d{4}(?:[/:]?\d{2}[/:]?\d{2})?)?(?: ?\d{1,2}):(?::\d{1,2})?(?:[.|,]\d{1,9})?\n?\Z", s) and lvl == "top":
             return "common-minute-absent-typeerror"
         if "/" in s and lvl == "top":
@@ -737,8 +738,8 @@ def known(c, backend, r):
 
 LEVEL_TEXT = ("Machine-checked Coq theorems about an executable model of the whole pendulum.parse chain (built on the C07/C13 parser models): totality "
               "of the compiled parser over ALL strings, of the pure-Python post-match code over all strings through the Coq regex matcher, of the "
-              "fallback chain with the escape regions characterised (TypeError iff COMMON's minute group is absent or an interval endpoint is not a "
-              "date-time, OverflowError iff the duration constructor or the interval arithmetic overflows, AttributeError iff both halves are "
+              "fallback chain with the escape regions characterised (_parse_common total on every string: COMMON's minute group proved mandatory on the "
+              "generated pattern, so '2:' is a ParserError; TypeError iff an interval endpoint is not a date-time, OverflowError iff the duration constructor or the interval arithmetic overflows, AttributeError iff both halves are "
               "durations), strict=True never reaches dateutil; refutations by witness for each escape; differential correspondence on ~3*10^5 "
               "edited strings per run and four independent oracles.")
 DESIGN_REF = "DESIGN.md section 4 C17"
